@@ -302,7 +302,12 @@ class UBXMessage:
             if ares == 1:
                 valb = val2bytes(val, adef)
             else:
-                valb = val2bytes(int(val / ares), adef)
+                vali = int(val / ares)
+                # if the nearest integer reproduces the value exactly as it would be
+                # parsed, use it (avoids float truncation e.g. 0.29 / 0.01 = 28.99..)
+                if round(round(val / ares) * ares, SCALROUND) == round(val, SCALROUND):
+                    vali = round(val / ares)
+                valb = val2bytes(vali, adef)
             self._payload += valb
 
         if anami[0:3] == "_HP":  # high precision component of earlier attribute
